@@ -34,7 +34,7 @@ ASSUMPTIONS = ['the documented mirroring of system_scope into system is the only
 LEVEL_TEXT = ('Seeded sampling of triples, each enforced in 12 mode combinations by the real code and related pairwise; the '
               'suite never relates two modes on one input.')
 LEVEL_NOTE = 'trusted: the mode-relation oracle transcribed from the statement; copy.deepcopy for fresh inputs per call'
-PLAN = {'quick': dict(shards=4, wall=60), 'thorough': dict(shards=16, wall=400)}
+PLAN = {'quick': dict(shards=4, wall=120), 'thorough': dict(shards=16, wall=400)}
 MIN = {'overlapping_evaluations': 200, 'evaluations': 1000, 'falsy_plain': 300, 'truthy_plain': 300, 'custom_exceptions_seen': 200,
        'invalid_scope_seen': 20, 'not_registered_seen': 100, 'debug_on_triples': 300, 'empty_ruleset_triples': 50,
        'related_name_probes': 800, 'related_name_probes.deprecated-old-name': 80, 'related_registered_compared': 300}
